@@ -9,7 +9,7 @@ unfinished thread (free switch).  An execution is therefore a deterministic func
 import sys
 import threading
 
-WAIT = 10.0      # a switch that is not answered within this time is a hang (executions take milliseconds)
+WAIT = 60.0      # a switch that is not answered within this time is a hang (executions take milliseconds; generous: a loaded machine must never turn into an alarm)
 
 
 class Hang(Exception):
